@@ -355,6 +355,19 @@ def gtAmt (v : Value) (x : Amount) : Res Bool :=
     by symbol). -/
 def commLt (a b : Comm) : Bool := a < b
 
+/-- balance_t::sorted_amounts on unannotated commodities: stable sort by symbol
+    (commodity_t::compare_by_commodity). -/
+def sortByComm (b : Balance) : Balance :=
+  b.foldr (fun x acc => ins x acc) []
+where ins (x : Amount) : Balance → Balance
+  | [] => [x]
+  | y :: ys => if y.comm < x.comm then y :: ins x ys else x :: y :: ys
+
+/-- the order in which `<` walks the components of a balance: `sorted_amounts`
+    order when the source sorts them (`Gen.ltBalanceSorted`), else the map's
+    own enumeration order (here: the list as given). -/
+def ltWalkOrder (b : Balance) : Balance := if Gen.ltBalanceSorted then sortByComm b else b
+
 /-- value_t::is_less_than. -/
 def lt (a b : Value) : Res Bool :=
   match a, b with
@@ -371,8 +384,8 @@ def lt (a b : Value) : Res Bool :=
   | amt x, bal y => do
     let t ← toAmount (.bal y)
     (Amount.cmp t x).map (· == .gt)
-  | bal x, int y => ltAll x (.int y)
-  | bal x, amt y => ltAll x (.amt y)
+  | bal x, int y => ltAll (ltWalkOrder x) (.int y)
+  | bal x, amt y => ltAll (ltWalkOrder x) (.amt y)
   | bal x, bal y => do
     let t ← toAmount (.bal y)
     let s ← toAmount (.bal x)
